@@ -51,8 +51,15 @@ def _ident(tok):
     return tok
 
 
-def parse_ir(text):
-    """IR text -> neutral term. Fails (ReadError) on anything outside the subset: the check then treats the output as broken."""
+_FLAG = {'True': True, 'False': False}
+
+
+def parse_ir(text, agg=False):
+    """IR text -> neutral term. Fails (ReadError) on anything outside the subset: the check then treats the output as broken.
+    agg=True additionally reads the aggregation / scan node classes (heads: ['AggLet', x, is_scan] ['AggFilter', is_scan]
+    ['AggGroupBy', is_scan] ['AggExplode', x, is_scan] ['AggArrayPerElement', elt, idx, is_scan] ['ApplyAggOp'|'ApplyScanOp', op,
+    n_init] (children = init args + seq args) ['TableAggregate'] ['TableMapRows'] ['TableRange', n, p] ['InsertFields', [f..]]
+    (children = old struct + field values) ['MakeTuple', n] ['Cast', type]); they are outside the Coq model."""
     toks = tokenize(text)
     pos = 0
 
@@ -77,6 +84,12 @@ def parse_ir(text):
         while peek() != ')':
             out.append(node())
         return out
+
+    def flag():
+        t = take()
+        if t not in _FLAG:
+            raise ReadError(f'expected True/False, got {t!r}')
+        return _FLAG[t]
 
     def node():
         take('(')
@@ -133,6 +146,59 @@ def parse_ir(text):
             take(')')   # no type arguments
             take()      # return type (one token: no spaces in the parsable form of the modelled types)
             h, cs = ['Idx', True], children(2)
+        elif agg and name == 'AggLet':
+            x = _ident(take())
+            h, cs = ['AggLet', x, flag()], children(2)
+        elif agg and name in ('AggFilter', 'AggGroupBy'):
+            h, cs = [name, flag()], children(2)
+        elif agg and name == 'AggExplode':
+            x = _ident(take())
+            h, cs = ['AggExplode', x, flag()], children(2)
+        elif agg and name == 'AggArrayPerElement':
+            e = _ident(take())
+            i = _ident(take())
+            h = ['AggArrayPerElement', e, i, flag()]
+            take()      # knownLength flag (no child for it in the python IR)
+            cs = children(2)
+        elif agg and name in ('ApplyAggOp', 'ApplyScanOp'):
+            op = take()
+            take('(')
+            init = rest()
+            take(')')
+            take('(')
+            seq = rest()
+            take(')')
+            h, cs = [name, op, len(init)], init + seq
+        elif agg and name in ('StreamAgg', 'StreamAggScan'):
+            h, cs = [name, _ident(take())], children(2)
+        elif agg and name in ('TableAggregate', 'TableMapRows'):
+            h, cs = [name], children(2)
+        elif agg and name == 'TableRange':
+            n = int(take())
+            h, cs = ['TableRange', n, int(take())], []
+        elif agg and name == 'InsertFields':
+            old = node()
+            if take() == '(':       # field order: None or a parenthesised list of names
+                while take() != ')':
+                    pass
+            fs, cs = [], [old]
+            while peek() == '(':
+                take('(')
+                fs.append(_ident(take()))
+                cs.append(node())
+                take(')')
+            h = ['InsertFields', fs]
+        elif agg and name == 'MakeTuple':
+            take('(')
+            k = 0
+            while take() != ')':
+                k += 1
+            cs = rest()
+            if len(cs) != k:
+                raise ReadError('MakeTuple: index list and children differ in length')
+            h = ['MakeTuple', k]
+        elif agg and name == 'Cast':
+            h, cs = ['Cast', take()], children(1)
         else:
             raise ReadError(f'IR node {name!r} is outside the modelled subset')
         take(')')
@@ -792,3 +858,482 @@ def find_let(t, name):
         if r is not None:
             return r
     return None
+
+
+# ------------------------------------------------------------------------------------------------
+# aggregation / scan binding contexts (outside the Coq model: checked on the real renderer output only)
+#
+# A node is evaluated in a triple of environments (eval, agg, scan); agg / scan may be absent (None).  The table below is the
+# binding structure of the node classes as the engine defines it (Scala `Binds` / python `_compute_type`), written down by
+# hand; it does NOT consult the python binding metadata the renderer itself uses.
+#   context argument (AggFilter cond, AggGroupBy key, AggExplode array, AggArrayPerElement array, seq args of
+#   ApplyAggOp / ApplyScanOp, value of AggLet): evaluated with eval := the agg (is_scan False) resp. scan (True) environment,
+#   no agg / scan environment of its own.
+#   AggLet x s v b: b sees x in the agg (s False) / scan (s True) environment.   AggExplode x s a b: likewise the element x.
+#   AggArrayPerElement e i s a b: b sees i in eval and e in agg / scan.   Let, StreamMap, StreamFilter, StreamFold: eval only.
+#   TableAggregate t q: q has eval {global}, agg {row, global}, no scan.   TableMapRows t r: r has eval {row, global},
+#   scan {row, global}, no agg.
+
+class ScopeError(Exception):
+    """key: class of the violation; var: the variable concerned; via: 'StreamAgg' / 'StreamAggScan' when the variable is used by
+    a lifted expression through the body of such a node (see stream_agg_body_vars), else ''."""
+
+    def __init__(self, key, msg, var=None, via=''):
+        super().__init__(msg)
+        self.key, self.var, self.via = key, var, via
+
+
+def stream_agg_body_vars(t, acc=None):
+    """Eval-context variables that are free in the BODY of a StreamAgg / StreamAggScan node of t (other than its element)."""
+    acc = acc if acc is not None else set()
+    h, cs = t
+    if h[0] in ('StreamAgg', 'StreamAggScan'):
+        acc |= _eval_free(cs[1]) - {h[1]}
+    for c in cs:
+        stream_agg_body_vars(c, acc)
+    return acc
+
+
+def _eval_free(t):
+    """Variables referenced in eval-context positions of t (not through a context argument) and not bound inside t."""
+    h, cs = t
+    k = h[0]
+    if k == 'Ref':
+        return {h[1]}
+    out = set()
+    for i, c in enumerate(cs):
+        if (k in ('AggFilter', 'AggGroupBy', 'AggExplode', 'AggArrayPerElement', 'AggLet') and i == 0) or \
+                (k in ('ApplyAggOp', 'ApplyScanOp') and i >= h[2]):
+            continue        # context argument: evaluated in the agg / scan environment
+        bound = set(binds(h, i))
+        if k == 'AggArrayPerElement' and i == 1:
+            bound = {h[2]}
+        elif k == 'StreamAggScan' and i == 1:
+            bound = {h[1]}
+        out |= _eval_free(c) - bound
+    return out
+
+
+def is_cse(name):
+    return name.startswith('__cse_')
+
+
+def _agg_switch(ctx, scan, who, detail=''):
+    ev, ag, sc, kind = ctx
+    env = sc if scan else ag
+    want = 'scan' if scan else 'agg'
+    if env is None:
+        have = [w for w, e in (('agg', ag), ('scan', sc)) if e is not None]
+        raise ScopeError(f'{want}-context-missing:{who}',
+                         f'{who}{detail} with is_scan={scan} needs the {"scan" if scan else "aggregation"} context, which does not exist '
+                         f'at that place (it is evaluated in the {kind} context; available: {"/".join(have) or "none"})')
+    return (env, None, None, want)
+
+
+def scope_check(t):
+    """Scope-check a term read with parse_ir(agg=True).  Every Ref must be bound in the environment in which it is evaluated;
+    a reference to a CSE binding (`__cse_N`, bound by `Let eval` in the eval environment or by `AggLet .. False/True` in the
+    agg / scan environment) must in addition see, at the place of the reference, the SAME binders for the variables of the bound
+    expression as the binding itself does (otherwise inlining the let changes what a variable refers to).  Raises ScopeError.
+    Returns statistics."""
+    counter = [0]
+    stats = {'refs': 0, 'cse_refs': 0, 'let': 0, 'agglet_agg': 0, 'agglet_scan': 0}
+
+    def fresh(value=None, res=None):
+        counter[0] += 1
+        return (counter[0], value, res)
+
+    def bind(env, names):
+        e = dict(env)
+        for n in names:
+            e[n] = fresh()
+        return e
+
+    trail = []      # head kinds on the path from the root to the node being walked ('<value of N>' marks the bound expression of a CSE let)
+
+    def via_stream_agg():
+        """(name of the outermost enclosing lifted binding or None, first StreamAgg / StreamAggScan between it and here or '')"""
+        j = min((i for i, x in enumerate(trail) if x.startswith('<value of ')), default=None)
+        if j is None:
+            return None, ''
+        return trail[j][10:-1], ([x for x in trail[j + 1:] if x in ('StreamAgg', 'StreamAggScan')] + [''])[0]
+
+    def walk(t, ctx, out, floor, count):
+        ev, ag, sc, kind = ctx
+        h, cs = t
+        k = h[0]
+        if k == 'Ref':
+            name = h[1]
+            if count:
+                stats['refs'] += 1
+                stats['cse_refs'] += is_cse(name)
+            if name not in ev:
+                other = [w for w, e in (('eval', ev), ('agg', ag), ('scan', sc)) if e is not None and name in e]
+                where, note, via = '', '', ''
+                if not is_cse(name):
+                    # a program variable: is it used by a lifted expression (that was put above the variable's binder)?  and
+                    # does it reach that expression through the body of a StreamAgg / StreamAggScan?
+                    lifted, via = via_stream_agg()
+                    if lifted:
+                        where = ':lifted-above-binder'
+                        note = f'; it is used by the lifted expression bound to {lifted}, which was put outside the scope of {name}'
+                raise ScopeError(('unbound-cse-reference:' if is_cse(name) else 'unbound-variable:') + kind + '-context' + where,
+                                 f'(Ref {name}) is evaluated in the {kind} context, where {name} is not bound'
+                                 + (f' (it is bound in the {"/".join(other)} environment of that place)' if other else '') + note,
+                                 var=name, via=via)
+            bid, value, res = ev[name]
+            if bid < floor:
+                # (binder, variable, StreamAgg / StreamAggScan body through which an enclosing lifted expression reaches it)
+                out.append((bid, name, via_stream_agg()[1]))
+            if value is not None:
+                # the bound expression, put in the place of the reference, must resolve its variables as it did at the let
+                sub = []
+                trail.append('<value of ' + name + '>')
+                try:
+                    walk(value, ctx, sub, counter[0] + 1, False)
+                except ScopeError as e:
+                    raise ScopeError('cse-binding-variable-unbound-at-use', f'at a use of {name}: {e}', var=e.var, via=e.via)
+                trail.pop()
+                if [b[0] for b in sub] != [b[0] for b in res]:
+                    d = [b for a, b in zip(res, sub) if a[0] != b[0]]
+                    _, var, via = d[0] if d else (0, '?', '')
+                    raise ScopeError('cse-binding-captures-variable',
+                                     f'the expression bound to {name} uses the variable {var}, which refers to another binder at a use of '
+                                     f'{name} than at the binding (the binding was put outside the scope of the binder its uses see)',
+                                     var=var, via=via)
+                out.extend(b for b in sub if b[0] < floor)
+            return
+        if k in ('Let', 'AggLet'):
+            name = h[1]
+            if k == 'Let':
+                vctx = ctx
+            else:
+                vctx = _agg_switch(ctx, h[2], 'AggLet', ' ' + name)
+            sub = []
+            trail.append('<value of ' + name + '>' if is_cse(name) else k)
+            walk(cs[0], vctx, sub, counter[0] + 1, count)
+            trail.pop()
+            out.extend(b for b in sub if b[0] < floor)
+            rec = fresh(cs[0], sub) if is_cse(name) else fresh()
+            if count and is_cse(name):
+                stats['let' if k == 'Let' else 'agglet_scan' if h[2] else 'agglet_agg'] += 1
+            if k == 'Let':
+                bctx = ({**ev, name: rec}, ag, sc, kind)
+            elif h[2]:
+                bctx = (ev, ag, {**sc, name: rec}, kind)
+            else:
+                bctx = (ev, {**ag, name: rec}, sc, kind)
+            walk(cs[1], bctx, out, floor, count)
+            return
+        for i, c in enumerate(cs):
+            cctx = ctx
+            if k in ('StreamMap', 'StreamFilter') and i == 1:
+                cctx = (bind(ev, [h[1]]), ag, sc, kind)
+            elif k == 'StreamFold' and i == 2:
+                cctx = (bind(ev, [h[1], h[2]]), ag, sc, kind)
+            elif k in ('AggFilter', 'AggGroupBy') and i == 0:
+                cctx = _agg_switch(ctx, h[1], k)
+            elif k == 'AggExplode':
+                if i == 0:
+                    cctx = _agg_switch(ctx, h[2], k)
+                else:
+                    _agg_switch(ctx, h[2], k)
+                    cctx = (ev, ag, bind(sc, [h[1]]), kind) if h[2] else (ev, bind(ag, [h[1]]), sc, kind)
+            elif k == 'AggArrayPerElement':
+                if i == 0:
+                    cctx = _agg_switch(ctx, h[3], k)
+                else:
+                    e2 = bind(ev, [h[2]])
+                    cctx = (e2, ag, bind(sc, [h[1]]), kind) if h[3] else (e2, bind(ag, [h[1]]), sc, kind)
+            elif k in ('ApplyAggOp', 'ApplyScanOp') and i >= h[2]:
+                cctx = _agg_switch(ctx, k == 'ApplyScanOp', k)
+            elif k == 'TableAggregate' and i == 1:
+                cctx = (bind({}, ['global']), bind({}, ['row', 'global']), None, 'eval')
+            elif k == 'TableMapRows' and i == 1:
+                cctx = (bind({}, ['row', 'global']), None, bind({}, ['row', 'global']), 'eval')
+            elif k == 'StreamAgg' and i == 1:
+                # aggregation over a stream: the aggregated environment is the eval environment plus the element
+                cctx = (ev, bind(ev, [h[1]]), None, kind)
+            elif k == 'StreamAggScan' and i == 1:
+                e2 = bind(ev, [h[1]])
+                cctx = (e2, None, e2, kind)
+            trail.append(k)
+            walk(c, cctx, out, floor, count)
+            trail.pop()
+
+    walk(t, ({}, None, None, 'eval'), [], 0, True)
+    return stats
+
+
+def inline_cse(t, env=None):
+    """Replace every reference to a `__cse_N` binding by the bound expression and drop the binding (Let / AggLet)."""
+    env = env or {}
+    h, cs = t
+    if h[0] == 'Ref' and h[1] in env:
+        return env[h[1]]
+    if h[0] in ('Let', 'AggLet') and is_cse(h[1]):
+        return inline_cse(cs[1], {**env, h[1]: inline_cse(cs[0], env)})
+    return [h, [inline_cse(c, env) for c in cs]]
+
+
+def context_argument_stats(t, acc=None):
+    """How often is the context argument of an aggregation node a reference to a CSE binding (directly / under ToStream)?"""
+    acc = acc if acc is not None else {}
+    h, cs = t
+    if h[0] in ('AggFilter', 'AggGroupBy', 'AggExplode', 'AggArrayPerElement') and cs:
+        a = cs[0]
+        while a[0][0] == 'ToStream':
+            a = a[1][0]
+        if a[0][0] == 'Ref' and is_cse(a[0][1]):
+            flagv = h[1] if h[0] in ('AggFilter', 'AggGroupBy') else h[2] if h[0] == 'AggExplode' else h[3]
+            key = f'{h[0]}:{"scan" if flagv else "agg"}:context-argument-is-shared'
+            acc[key] = acc.get(key, 0) + 1
+    for c in cs:
+        context_argument_stats(c, acc)
+    return acc
+
+
+# ---- generators of programs with aggregation / scan contexts (program language: see c35_cse.py, mode 'agg')
+
+ROW_T = ['struct', [['idx', 'int']]]
+_ROW_IDX = ['field', 'idx', ['var', 'row', ROW_T]]
+
+
+class AggGen:
+    """Random aggregation / scan queries over a table with row {idx: int32}.  Three kinds of positions: 'res' (an aggregation
+    result: eval context with aggregations available), 'inner' (a context argument: evaluated in the agg / scan environment)
+    and 'eval' (plain eval-context values: init arguments, let values).  Python-level sharing (`share` / `use`) of inner
+    expressions, eval expressions and whole aggregation results."""
+
+    def __init__(self, rng, scan, budget=8, share_p=0.3, row=True):
+        self.rng, self.scan, self.budget, self.share_p, self.n = rng, scan, budget, share_p, 0
+        self.row = row      # False: no table row in scope (aggregation over a stream: StreamAgg / StreamAggScan)
+
+    def row_idx(self, iv):
+        if self.row:
+            return _ROW_IDX
+        vc = [n for n, ty in iv if ty == 'int']
+        return ['var', self.rng.choice(vc), 'int'] if vc else ['int', self.rng.randint(0, 5)]
+
+    def fresh(self, p):
+        self.n += 1
+        return f'{p}{self.n}'
+
+    def program(self):
+        body = self.res(self.budget, [], [], [])
+        if self.scan:
+            fields = [['n', body]]
+            if self.rng.random() < 0.3:
+                fields.append(['m', self.res(self.budget // 2, [], [], [])])
+            return ['tscan', fields]
+        return ['tagg', body]
+
+    # py: (name, type, kind); ev / iv: (name, type) variables of the eval / inner environment
+    def inner(self, t, d, py, iv):
+        rng = self.rng
+        if d > 1 and rng.random() < self.share_p:
+            st = rng.choice(['int', 'int', 'bool', ['array', 'int']])
+            s = self.fresh('s')
+            return ['share', s, self.inner(st, d // 2, py, iv), self.inner(t, d - 1, py + [(s, st, 'inner' if iv else 'inner0')], iv)]
+        cands = [n for n, ty, k in py if ty == t and k in ('inner', 'inner0')]
+        if cands and rng.random() < 0.55:
+            return ['use', rng.choice(cands[-4:])]
+        vc = [n for n, ty in iv if ty == t]
+        if vc and rng.random() < 0.4:
+            return ['var', rng.choice(vc[-3:]), t]
+        if t == 'int':
+            k = rng.choice(['idx', 'idx', 'lit', 'bin', 'bin', 'neg', 'len'] if d > 0 else ['idx', 'lit'])
+            if k == 'idx':
+                return self.row_idx(iv)
+            if k == 'lit':
+                return ['int', rng.choice([0, 1, 2, 3, 7, -1])]
+            if k == 'bin':
+                return ['bin', rng.choice(['+', '-', '*']), self.inner('int', d // 2, py, iv), self.inner('int', d // 2, py, iv)]
+            if k == 'neg':
+                return ['un', '-', self.inner('int', d - 1, py, iv)]
+            return ['len', self.inner(['array', 'int'], d - 1, py, iv)]
+        if t == 'bool':
+            k = rng.choice(['cmp', 'cmp', 'not', 'lit'] if d > 0 else ['cmp0', 'lit'])
+            if k == 'cmp':
+                return ['cmp', rng.choice(CMP_OPS), self.inner('int', d // 2, py, iv), self.inner('int', d // 2, py, iv)]
+            if k == 'cmp0':
+                return ['cmp', rng.choice(CMP_OPS), self.row_idx(iv), ['int', rng.randint(0, 5)]]
+            if k == 'not':
+                return ['un', '!', self.inner('bool', d - 1, py, iv)]
+            return ['bool', rng.random() < 0.5]
+        k = rng.choice(['array', 'array', 'map'] if d > 0 else ['array'])
+        if k == 'map':
+            x = self.fresh('x')
+            return ['map', x, self.inner(t, d // 2, py, iv), self.inner('int', d // 2, py, iv + [(x, 'int')])]
+        m = rng.randint(1, 2)
+        return ['array', [self.inner('int', d // (m + 1), py, iv) for _ in range(m)]]
+
+    def evalv(self, d, py, ev):
+        """an int32 value of the eval context"""
+        rng = self.rng
+        # 'inner0': a shared context-argument expression over the row only; under TableMapRows the row is an eval variable too,
+        # so the SAME object may also be used in the eval context (it then needs a Let eval AND an AggLet)
+        cands = [n for n, ty, k in py if ty == 'int' and (k == 'eval' or (k == 'inner0' and self.scan))]
+        if cands and rng.random() < 0.5:
+            return ['use', rng.choice(cands[-3:])]
+        vc = [n for n, ty in ev if ty == 'int']
+        if vc and rng.random() < 0.5:
+            return ['var', rng.choice(vc[-3:]), 'int']
+        if d > 0 and rng.random() < 0.4:
+            return ['bin', rng.choice(['+', '*']), self.evalv(d - 1, py, ev), self.evalv(d - 1, py, ev)]
+        if self.scan and self.row and rng.random() < 0.3:
+            return _ROW_IDX       # TableMapRows: the row is also an eval-context variable
+        return ['int', rng.randint(1, 4)]
+
+    def ctxarg(self, t, d, py, iv):
+        """a context argument: with a shared expression of the right type available, use it DIRECTLY half of the time"""
+        cands = [n for n, ty, k in py if ty == t and k in ('inner', 'inner0')]
+        if cands and self.rng.random() < 0.5:
+            return ['use', self.rng.choice(cands[-4:])]
+        return self.inner(t, d, py, iv)
+
+    def res(self, d, py, ev, iv):
+        rng, scan = self.rng, self.scan
+        if d > 1 and rng.random() < self.share_p:
+            kind = rng.choice(['inner', 'inner', 'inner', 'eval', 'res'])
+            s = self.fresh('s')
+            if kind == 'inner':
+                st = rng.choice(['int', 'bool', 'bool', ['array', 'int']])
+                return ['share', s, self.inner(st, d // 2, py, iv), self.res(d - 1, py + [(s, st, 'inner' if iv else 'inner0')], ev, iv)]
+            if kind == 'eval':
+                return ['share', s, self.evalv(2, py, ev), self.res(d - 1, py + [(s, 'int', 'eval')], ev, iv)]
+            return ['share', s, self.res(d // 2, py, ev, iv), self.res(d - 1, py + [(s, 'res', 'res')], ev, iv)]
+        cands = [n for n, ty, k in py if k == 'res']
+        if cands and rng.random() < 0.3:
+            return ['use', rng.choice(cands[-3:])]
+        k = rng.choice(['op', 'op', 'filter', 'filter', 'explode', 'groupby', 'arrayper', 'agglet', 'tuple', 'tuple', 'bind', 'evtuple']
+                       if d > 0 else ['op'])
+        h = d // 2
+        if k == 'evtuple':      # an aggregation result next to a plain eval-context value
+            return ['tuple', [self.res(d - 1, py, ev, iv), self.evalv(1, py, ev)]]
+        if k == 'op':
+            op = rng.choice(['Count', 'Collect', 'Take', 'Sum'])
+            if op == 'Count':
+                return ['aggop', scan, 'Count', [], []]
+            if op == 'Collect':
+                return ['aggop', scan, 'Collect', [], [self.ctxarg(rng.choice(['int', 'bool']), h, py, iv)]]
+            if op == 'Take':
+                return ['aggop', scan, 'Take', [self.evalv(1, py, ev)], [self.ctxarg(rng.choice(['int', 'bool']), h, py, iv)]]
+            return ['aggop', scan, 'Sum', [], [['cast64', self.ctxarg('int', h, py, iv)]]]
+        if k == 'filter':
+            return ['aggfilter', scan, self.ctxarg('bool', h, py, iv), self.res(d - 1, py, ev, iv)]
+        if k == 'groupby':
+            return ['agggroupby', scan, self.ctxarg(rng.choice(['int', 'bool']), h, py, iv), self.res(d - 1, py, ev, iv)]
+        if k == 'explode':
+            x = self.fresh('e')
+            return ['aggexplode', scan, x, self.ctxarg(['array', 'int'], h, py, iv), self.res(d - 1, py, ev, iv + [(x, 'int')])]
+        if k == 'arrayper':
+            e, i = self.fresh('el'), self.fresh('i')
+            return ['aggarrayper', scan, e, i, self.ctxarg(['array', 'int'], h, py, iv),
+                    self.res(d - 1, py, ev + [(i, 'int')], iv + [(e, 'int')])]
+        if k == 'agglet':
+            x = self.fresh('a')
+            t = rng.choice(['int', 'bool', ['array', 'int']])
+            return ['agglet', scan, x, self.ctxarg(t, h, py, iv), self.res(d - 1, py, ev, iv + [(x, t)])]
+        if k == 'tuple':
+            m = rng.randint(2, 3)
+            return ['tuple', [self.res(d // m, py, ev, iv) for _ in range(m)]]
+        x = self.fresh('b')
+        return ['bind', x, self.evalv(2, py, ev), self.res(d - 1, py, ev + [(x, 'int')], iv)]
+
+
+def agg_targeted_program(rng):
+    """One expression shared by two or three aggregations, sitting AT the context argument itself or ONE LEVEL BELOW it, for
+    every kind of context argument, for aggregations and scans, at top level or nested inside an outer AggFilter / AggExplode /
+    AggLet / AggArrayPerElement (the shared expression then may use the variable that node binds)."""
+    scan = rng.random() < 0.5
+    outer = rng.choice(['none', 'none', 'filter', 'explode', 'agglet', 'arrayper', 'groupby'])
+    base = _ROW_IDX
+    if outer in ('explode', 'agglet', 'arrayper') and rng.random() < 0.7:
+        base = ['bin', '+', ['var', 'o', 'int'], _ROW_IDX] if rng.random() < 0.5 else ['var', 'o', 'int']
+    t = rng.choice(['bool', 'int', 'arr'])
+    if t == 'bool':
+        shared = ['cmp', rng.choice(CMP_OPS), base, ['int', rng.randint(0, 5)]]
+        below = lambda u: rng.choice([['un', '!', u], ['un', '!', ['un', '!', u]]])  # noqa: E731
+    elif t == 'int':
+        shared = ['bin', rng.choice(['+', '*', '-']), base, ['int', rng.randint(1, 5)]]
+        below = lambda u: rng.choice([['un', '-', u], ['bin', '+', u, ['int', 1]], ['bin', '*', u, u]])  # noqa: E731
+    else:
+        shared = ['array', [base, ['bin', '+', base, ['int', 1]]]]
+        below = lambda u: rng.choice([['map', 'x', u, ['bin', '+', ['var', 'x', 'int'], ['int', 1]]],  # noqa: E731
+                                      ['filter', 'x', u, ['bool', True]]])
+    u = ['use', 'S']
+
+    def op():
+        return rng.choice([['aggop', scan, 'Count', [], []], ['aggop', scan, 'Sum', [], [['cast64', _ROW_IDX]]],
+                           ['aggop', scan, 'Collect', [], [_ROW_IDX]], ['aggop', scan, 'Take', [['int', 2]], [_ROW_IDX]]])
+
+    def occurrence(direct):
+        a = u if direct else below(u)
+        if t == 'bool':
+            k = rng.choice(['filter', 'filter', 'filter', 'groupby', 'seq', 'agglet'])
+        elif t == 'int':
+            k = rng.choice(['groupby', 'groupby', 'seq', 'seq', 'agglet'])
+        else:
+            k = rng.choice(['explode', 'explode', 'arrayper', 'arrayper', 'agglet'])
+        if k == 'filter':
+            return ['aggfilter', scan, a, op()]
+        if k == 'groupby':
+            return ['agggroupby', scan, a, op()]
+        if k == 'seq':
+            return ['aggop', scan, 'Collect', [], [a]] if t != 'int' or rng.random() < 0.5 else ['aggop', scan, 'Sum', [], [['cast64', a]]]
+        if k == 'explode':
+            x = 'e%d' % rng.randint(1, 9)
+            return ['aggexplode', scan, x, a, rng.choice([op(), ['aggop', scan, 'Collect', [], [['var', x, 'int']]]])]
+        if k == 'arrayper':
+            return ['aggarrayper', scan, 'el', 'i', a, rng.choice([op(), ['aggop', scan, 'Sum', [], [['cast64', ['var', 'el', 'int']]]]])]
+        return ['agglet', scan, 'w', a, ['aggop', scan, 'Collect', [], [['var', 'w', {'bool': 'bool', 'int': 'int', 'arr': ['array', 'int']}[t]]]]]
+
+    pattern = rng.choice([[True, True], [True, True, True], [True, False], [False, True], [False, False], [True, True, False]])
+    occ = [occurrence(dr) for dr in pattern]
+    if rng.random() < 0.3:      # one use deeper: under a further aggregation node
+        occ.append(['aggfilter', scan, ['cmp', '<', _ROW_IDX, ['int', 7]], occurrence(rng.random() < 0.5)])
+    rng.shuffle(occ)
+    body = ['share', 'S', shared, ['tuple', occ]]
+    if outer == 'filter':
+        body = ['aggfilter', scan, ['cmp', '>', _ROW_IDX, ['int', 0]], body]
+    elif outer == 'groupby':
+        body = ['agggroupby', scan, ['bin', '%', _ROW_IDX, ['int', 2]], body]
+    elif outer == 'explode':
+        body = ['aggexplode', scan, 'o', ['array', [_ROW_IDX, ['int', 1]]], body]
+    elif outer == 'agglet':
+        body = ['agglet', scan, 'o', ['bin', '*', _ROW_IDX, ['int', 2]], body]
+    elif outer == 'arrayper':
+        body = ['aggarrayper', scan, 'o', 'oi', ['array', [_ROW_IDX, ['int', 1]]], body]
+    if rng.random() < 0.25:
+        body = ['tuple', [body, op()]]
+    return ['tscan', [['n', body]]] if scan else ['tagg', body]
+
+
+def streamagg_program(rng):
+    """Aggregations / scans over a STREAM inside plain value IR (StreamAgg / StreamAggScan, what `array.aggregate(..)` /
+    `hl.array_scan`-style expressions build): one StreamAgg(Scan) OBJECT, whose body uses eval-context variables bound outside it
+    (a let-bound value, the variable of an enclosing loop) next to its aggregations, is used twice or more below those binders.
+    Binder names come from a two-name pool, so an inner binder may shadow an outer one."""
+    scanv = rng.random() < 0.35
+    g = AggGen(rng, scanv, budget=rng.choice([2, 3, 4, 6]), share_p=0.2, row=False)
+    pool = ['n', 'm']
+    outer = []                      # binders between the root and the uses, outermost first
+    for _ in range(rng.randint(0, 3)):
+        outer.append((rng.choice(['bind', 'bind', 'map']), rng.choice(pool)))
+    ev = [(v, 'int') for v in sorted({v for _, v in outer})]
+    x = 'x'
+    body = g.res(g.budget, [], ev + ([(x, 'int')] if scanv else []), [(x, 'int')])
+    src = ['array', [['int', rng.randint(0, 3)] for _ in range(rng.randint(1, 3))]]
+    if ev and rng.random() < 0.3:
+        src = ['array', [['var', rng.choice(ev)[0], 'int'], ['int', 1]]]
+    sdef = ['streamaggscan' if scanv else 'streamagg', x, src, body]
+    u = ['use', 'S']
+    uses = [u, u] + [rng.choice([u, ['tuple', [u, ['int', 0]]], ['tuple', [u]]]) for _ in range(rng.randint(0, 2))]
+    core = ['tuple', uses]
+    for kind, v in reversed(outer):
+        if kind == 'bind':
+            core = ['bind', v, ['int', rng.randint(1, 3)], core]
+        else:
+            core = ['map', v, ['array', [['int', 1], ['int', 2]]], core]
+    return ['share', 'S', sdef, core]
